@@ -359,7 +359,8 @@ static void do_call(const std::vector<std::string>& f, bool capi)
     extra = "\"ret\":" + std::to_string(r); parse_dv = true;
   } else if (op == "name") {
     if (capi) {
-      char buf[256]; memset(buf, 0, sizeof buf); strcpy(buf, "?unset?");
+      // the caller's buffer holds non-zero bytes beyond any name: a missing terminator shows
+      char buf[256]; memset(buf, 'x', sizeof buf); memcpy(buf, "?unset?", 7); buf[200] = 0;
       int r = lib([&]{ return masa_get_name(buf); }); buf[255] = 0;
       extra = "\"ret\":" + std::to_string(r) + ",\"v\":" + jstr(buf);
     } else {
@@ -460,6 +461,7 @@ static void do_call(const std::vector<std::string>& f, bool capi)
   finish(extra, "ret", &out);
 }
 
+#ifndef DRIVER_NO_MAIN
 int main(int argc, char** argv)
 {
   if (argc < 3) { fprintf(stderr, "usage: driver script log [fill]\n"); return 64; }
@@ -503,3 +505,4 @@ int main(int argc, char** argv)
   wr("{\"i\":" + std::to_string(++g_seq) + ",\"op\":\"end\"," + live_json() + "}\n");
   return 0;
 }
+#endif // DRIVER_NO_MAIN
